@@ -270,6 +270,13 @@ func (os *optimisticState) waitForRPCs() {
 		os.returnThreshold = rpcCount
 	}
 
+	// No ADD_PROVIDER RPC was scheduled (e.g. every peer of the lookup result
+	// was unreachable): nobody will ever write to or close doneChan, so there
+	// is nothing to wait for.
+	if rpcCount == 0 {
+		return
+	}
+
 	// Wait until returnThreshold ADD_PROVIDER RPCs have returned
 	for range os.doneChan {
 		if int(os.putProvDone.Add(1)) == os.returnThreshold {
